@@ -258,13 +258,13 @@ func runProperty(p *Property, tier string, seed int64, verifDir string, only int
 					fmt.Printf("INCONCLUSIVE property=%s reason=memory guard: process reserved %d MiB while running case %d (and up to %d neighbours)\n", p.ID, ms.Sys>>20, c.curCase.Load(), workers)
 					os.Exit(2)
 				}
-				if time.Since(time.Unix(0, lastProgress.Load())) > 180*time.Second {
+				if time.Since(time.Unix(0, lastProgress.Load())) > 420*time.Second {
 					buf := make([]byte, 1<<20)
 					buf = buf[:runtime.Stack(buf, true)]
 					dump := filepath.Join(verifDir, "build", "run", p.ID+"-stall.txt")
 					_ = os.MkdirAll(filepath.Dir(dump), 0o755)
 					_ = os.WriteFile(dump, buf, 0o644)
-					fmt.Printf("INCONCLUSIVE property=%s reason=watchdog: no case completed for 180s (last case %d, goroutine dump %s)\n", p.ID, c.curCase.Load(), dump)
+					fmt.Printf("INCONCLUSIVE property=%s reason=watchdog: no case completed for 420s (last case %d, goroutine dump %s)\n", p.ID, c.curCase.Load(), dump)
 					os.Exit(2)
 				}
 			}
